@@ -55,6 +55,9 @@ pub enum D {
     Str(Seq<char>),
     List(Seq<D>),
     Obj(Map<Seq<char>, D>),
+    // a node of a target format that no ucg value denotes (TOML datetime, YAML tagged value, YAML number that
+    // is neither an i64 nor an f64); data() never yields it, so a converter that produced one is rejected
+    Other,
 }
 
 pub enum Fmt { Json, Yaml, Toml }
@@ -146,6 +149,14 @@ pub open spec fn float_ok(fmt: Fmt, f: f64) -> bool {
     fmt is Json ==> f64_is_finite(f)
 }
 
+// The float a decoder sees.  JSON, TOML: the float itself.  YAML: "YAML only has one NaN" - serde_yaml's
+// `Number::from(f64)` replaces every NaN (any sign, payload) by one canonical NaN; every other float is itself.
+pub uninterp spec fn f64_is_nan(f: f64) -> bool;
+pub uninterp spec fn f64_canonical_nan() -> f64;
+pub open spec fn float_node(fmt: Fmt, f: f64) -> f64 {
+    if fmt is Yaml && f64_is_nan(f) { f64_canonical_nan() } else { f }
+}
+
 pub open spec fn null_ok(fmt: Fmt) -> bool {
     !(fmt is Toml)
 }
@@ -162,7 +173,7 @@ pub open spec fn data(fmt: Fmt, v: Val) -> Option<D>
         Val::Empty => if null_ok(fmt) { Some(D::Null) } else { None },
         Val::Boolean(b) => Some(D::Bool(b)),
         Val::Int(i) => Some(D::Int(i)),
-        Val::Float(f) => if float_ok(fmt, f) { Some(D::Float(f)) } else { None },
+        Val::Float(f) => if float_ok(fmt, f) { Some(D::Float(float_node(fmt, f))) } else { None },
         Val::Str(s) => Some(D::Str(s@)),
         Val::List(l) => list_data(fmt, l@),
         Val::Tuple(t) => tuple_data(fmt, t@),
